@@ -247,7 +247,8 @@ if __name__ == "__main__":
              "opens at any moment - in particular while the Connected handler of the conn is held on its gate - accepted by the real AcceptStream "
              "loop and given to a recording stream handler that resets them or leaves them to doClose, all schedules of 1-conn and budgeted "
              "schedules of 2-conn configurations with Conn.Close / Swarm.Close / Connected closing the conn; a ConnsToPeer READ of every conn "
-             "before every driver stimulus, judged against the notifications seen so far) "
+             "before every driver stimulus, judged against the notifications seen so far, first of all in configurations whose Disconnected / "
+             "Connected handler is held on its gate; a run in which a bubble goroutine blocks non-durably is written as a stuck case by a watchdog) "
              "and, under the real scheduler, addConn stalled right after the insert into conns.m (the harness holds "
              "s.directConnNotifs) racing Swarm.Close / Conn.Close. "
              "WHOLE-SWARM runs (kind 7, monitor only, real scheduler): a real Swarm with a TCP listener, two recording Notifiees "
